@@ -299,7 +299,23 @@ fn c14_backend<F: Function + MathFunction + Clone>(
         }
     };
     let nvars = c.vf.nvars;
-    let values = &c.vf.values;
+    // the values supplied on this visit: mostly the shape's distinct defaults;
+    // sometimes exactly zero (what a grown scratch array is padded with) or
+    // the tail of a per-sample array that an earlier call bound to the same
+    // variable, so that "already holds this value" shortcuts in kept
+    // evaluators meet stale contents
+    let values: Vec<f32> = c
+        .vf
+        .values
+        .iter()
+        .map(|v| match ch(&mut |c| c.choose("val_kind", 10)) {
+            0 => 0.0,
+            1 => *v * (1.0 + ch(&mut |c| c.choose("val_tail", 12)) as f32 / 8.0),
+            2 => -0.0,
+            _ => *v,
+        })
+        .collect();
+    let values = &values;
 
     // supply order: a drawn permutation, plus extras that the function does
     // not mention
@@ -329,7 +345,9 @@ fn c14_backend<F: Function + MathFunction + Clone>(
     rep.count("fault.extra_vars_supplied", nextra as u64);
 
     // probe points
-    let npts = 5;
+    // batch length drawn per visit: kept bulk evaluators see batches grow and
+    // shrink between shapes (and the missing-variable probe uses length 1)
+    let npts = 1 + ch(&mut |c| c.choose("npts", 12)) as usize;
     let pts: Vec<[f32; 3]> = (0..npts)
         .map(|_| {
             let ch = &mut st.borrow_mut().ch;
@@ -562,6 +580,24 @@ fn c14_backend<F: Function + MathFunction + Clone>(
             c.reference(pts[s], &vals)
         })
         .collect();
+    // a re-bind after the per-sample arrays: some variables get exactly the
+    // value their array ended with, the others keep theirs
+    let values3: Vec<f32> = values
+        .iter()
+        .map(|v| {
+            if ch(&mut |c| c.choose("rebind_tail", 2)) == 0 {
+                *v * scale(npts - 1)
+            } else {
+                *v
+            }
+        })
+        .collect();
+    let mut sv3 = ShapeVars::<f32>::new();
+    for k in &order {
+        sv3.insert(c.vars[*k].index().unwrap(), values3[*k]);
+    }
+    let refs3: Vec<f32> =
+        pts.iter().map(|p| c.reference(*p, &values3)).collect();
     let r = rt::catch(|| {
         let tape = shape.ez_float_slice_tape();
         let ev = &mut evs.fe;
@@ -579,12 +615,18 @@ fn c14_backend<F: Function + MathFunction + Clone>(
                 .eval_with_var_arrays(&tape, &xs, &ys, &zs, &sva)
                 .map(|v| v.to_vec()),
         };
-        (a, b)
+        let c3 = match xf {
+            Some(m) => ev
+                .eval_with_transform_and_vars(&tape, &xs, &ys, &zs, m, &sv3)
+                .map(|v| v.to_vec()),
+            None => ev.eval_with_vars(&tape, &xs, &ys, &zs, &sv3).map(|v| v.to_vec()),
+        };
+        (a, b.and_then(|b| c3.map(|c3| (b, c3))))
     });
     match r {
         Err(p) => rep.violate("C14", "float_slice_panic", p),
-        Ok((Ok(a), Ok(b))) => {
-            if a.len() != npts || b.len() != npts {
+        Ok((Ok(a), Ok((b, c3)))) => {
+            if a.len() != npts || b.len() != npts || c3.len() != npts {
                 rep.violate(
                     "C14",
                     "float_slice_length",
@@ -594,6 +636,7 @@ fn c14_backend<F: Function + MathFunction + Clone>(
                 for k in 0..npts {
                     check(rep, "float_slice_vars", a[k], refs[k], pts[k]);
                     check(rep, "float_slice_var_arrays", b[k], refs_arr[k], pts[k]);
+                    check(rep, "float_slice_vars_rebound", c3[k], refs3[k], pts[k]);
                 }
             }
         }
